@@ -103,9 +103,9 @@ def check_C25(ctx):
 
     # 3. deep simulated histories (2 accounts issue/publish/claim, 18 type arguments); the thorough tier
     #    runs several TLC simulations side by side, each with its own seed derived from VERIF_SEED
-    nsim = 250 if ctx.quick else 20000
+    nsim = 250 if ctx.quick else 4000
     depth = 41
-    chunk = 250 if ctx.quick else 1250
+    chunk = 250 if ctx.quick else 500
     jobs = [(k, min(chunk, nsim - k * chunk)) for k in range((nsim + chunk - 1) // chunk)]
 
     def simulate(job):
@@ -226,9 +226,9 @@ def check_C26(ctx):
         del lines, behs
 
     # 2. deep simulated histories: 2 accounts x 2 names, 8 source classes, <=3 calls per transaction
-    nsim = 200 if ctx.quick else 30000
+    nsim = 200 if ctx.quick else 10000
     depth = 61
-    chunk = 200 if ctx.quick else 2500
+    chunk = 200 if ctx.quick else 1250
     jobs = [(k, min(chunk, nsim - k * chunk)) for k in range((nsim + chunk - 1) // chunk)]
 
     def simulate(job):
